@@ -308,6 +308,16 @@ func (g *c15Gen) trees(t byte, n int) []*ref.Expr {
 			}
 		}
 	}
+	if t == 'B' {
+		// IN over a list-valued expression (no parenthesised list): one binary
+		// operator at comparison level, whatever follows it
+		for _, l := range g.trees('T', n-1) {
+			out = append(out, ref.InX(l, ref.Call("split", ref.Value(), ref.S(","))))
+		}
+		for _, l := range g.trees('N', n-1) {
+			out = append(out, ref.InX(l, ref.Call("list", ref.N(1), ref.N(2))))
+		}
+	}
 	// unary / call constructions around smaller trees keep the operator count
 	switch t {
 	case 'B':
